@@ -312,6 +312,11 @@ func runC19(o *hx.Out, r *hx.Rand, thorough bool) {
 		if r.Chance(15) {
 			params = append(params, "Mother.proto=example.com/o")
 		}
+		if it%3 == 1 {
+			// options come in any order: a file-to-package mapping (of a file that is not part of the request) in
+			// front of the others changes nothing
+			params = append([]string{"Munrelated/thing.proto=example.com/unrelated/thing"}, params...)
+		}
 		param := strings.Join(params, ",")
 		var deps []*descriptorpb.FileDescriptorProto
 		fileClosure(grpchantesting.File_test_proto, map[string]bool{}, &deps) // brings in google/protobuf/empty.proto
